@@ -111,6 +111,8 @@ Judge(t) ==
         inputTouched == IF t.g0_after # t.g0 \/ ~t.input_annotations_same THEN {"input_network_modified"} ELSE {}
         partial == IF Which = "C11" THEN inputTouched \cup (IF t.steps_known THEN stepStruct ELSE {})
                    ELSE (IF t.steps_known /\ forbiddenStep # {} THEN {"forbidden_pairing_created_by_a_swap"} ELSE {})
+                        \* a distance run (full-support target) that cannot finish within the watchdog has not approached the target either
+                        \cup (IF t.distance /\ ~(DistAll(nt, out) + Len(nt.tops) < DistAll(nt, g0)) THEN {"distance_to_target_not_smaller"} ELSE {})
         failed == IF t.timeout THEN partial ELSE IF t.raised # "" THEN {"raised"} ELSE IF Which = "C11" THEN c11 ELSE c12
         pinnedOnly == /\ t.steps_known /\ failed # {} /\ failed \subseteq {"motif_shape_changed"}
                       /\ \A i \in accepted : classes[i] \in {"repaired", "pinned_ids"}
